@@ -234,7 +234,7 @@ func C10(r *drv.Run) {
 	progs := c10Programs(depth)
 	texts := allTexts("ab\n", tlen)
 	r.Exhaustive = true
-	r.Rule = fmt.Sprintf("bounded-progress form of termination: every Run must return within %d VM steps (hook H1), a budget fixed at >= 100x the largest step count the enumerated scope needs on the unchanged tree. Scope enumerated completely: all programs of loop-nesting depth <= %d over nullable building blocks (literal, not-literal, any, line/word/file anchors and their negations, the empty group, the empty string, not-in, in-lists with an empty-string member first or last, whole word/line; loop forms maybe, at least 0, at most 2, between 0 and 2, at least 1, greedy and fewest; every level-1 program also under skip / skip-take / top / take / last clauses, as find and as replace; loops over loops, over (block loop) and over (loop or block); nullable bodies in subroutines called from loops; named loops with nullable bodies at top level, inside an inline subroutine, inside a stored pattern, inside a subroutine called from a loop, and named loops with a minimum of 50 000 / 100 000 over such bodies; loops that run zero times (exactly 0, at most 0, between 0 and 0) around the first mention of a stored pattern - in a command and inside another stored pattern - or around the definition of an inline subroutine, the name used again afterwards; stored patterns with a predicate (one that returns, one that ends without reaching a return, one that rejects) over each nullable block, referenced twice in a row, inside loops, and two of them side by side in a loop body; recursion guarded by each kind of consuming element, also with the recursive call inside a loop whose body is nullable (maybe s; s or the empty group): literal, not-literal, any, class, negated class, not-in, in, ranges with an empty lower bound) x all %d inputs over {a,b,\\n} up to length %d; plus seeded random deeper programs on inputs <= 8 bytes, a third of them drawing on every construct (regex literals, named loops, whole-*, amount clauses, replace) with now and then one name bound both by a capture and by a named loop (there an over-budget run is skipped, not judged; what counts there: crashes, and the step monitor's no-progress verdict - one instruction executed 20 000 times in a row in the same attempt at the same input offset with unchanged backtrack/call/loop depths). The property's other clause - process code without an unbounded loop - is covered by bounded process loops (counter loops, loops counting in a name they never initialise, head/tail loops with break, continue at every position, nested loops, return from inside; every transform used three times in one replacement) in transforms and predicates: every Run must return (there the worker's 30-second CPU guard is the observer; the VM step hook does not see process statements). Long prefixes: ten programs whose nullable loop (unnamed, named, capturing, lazy, in a regex literal) starts after one attempt has matched 100 .. 131 073 bytes through whole file / whole line (lengths on both sides of 65 536); budget 250 000 steps. Non-trivial = the program contains an optional loop whose body can match the empty string and the run executed a loop instruction; distinct by (program, input).", budget, depth, len(texts), tlen)
+	r.Rule = fmt.Sprintf("bounded-progress form of termination: every Run must return within %d VM steps (hook H1), a budget fixed at >= 100x the largest step count the enumerated scope needs on the unchanged tree. Scope enumerated completely: all programs of loop-nesting depth <= %d over nullable building blocks (literal, not-literal, any, line/word/file anchors and their negations, the empty group, the empty string, not-in, in-lists with an empty-string member first or last, whole word/line; loop forms maybe, at least 0, at most 2, between 0 and 2, at least 1, greedy and fewest; every level-1 program also under skip / skip-take / top / take / last clauses, as find and as replace; loops over loops, over (block loop) and over (loop or block); nullable bodies in subroutines called from loops; named loops with nullable bodies at top level, inside an inline subroutine, inside a stored pattern, inside a subroutine called from a loop, and named loops with a minimum of 50 000 / 100 000 over such bodies; loops that run zero times (exactly 0, at most 0, between 0 and 0) around the first mention of a stored pattern - in a command and inside another stored pattern - or around the definition of an inline subroutine, the name used again afterwards; stored patterns with a predicate (one that returns, one that ends without reaching a return, one that rejects) over each nullable block, referenced twice in a row, inside loops, and two of them side by side in a loop body; recursion guarded by each kind of consuming element, also with the recursive call inside a loop whose body is nullable (maybe s; s or the empty group): literal, not-literal, any, class, negated class, not-in, in, ranges with an empty lower bound) x all %d inputs over {a,b,\\n} up to length %d; plus seeded random deeper programs on inputs <= 8 bytes, a third of them drawing on every construct (regex literals, named loops, whole-*, amount clauses, replace) with now and then one name bound both by a capture and by a named loop (there an over-budget run is skipped, not judged; what counts there: crashes, and the step monitor's no-progress verdict - one instruction executed 20 000 times in a row in the same attempt at the same input offset with unchanged backtrack/call/loop depths). The property's other clause - process code without an unbounded loop - is covered by bounded process loops (counter loops, loops counting in a name they never initialise, head/tail loops with break, continue at every position, nested loops, return from inside; every transform used three times in one replacement; also over matches holding multi-byte characters and stray high bytes) in transforms and predicates: every Run must return (there the worker's 30-second CPU guard is the observer; the VM step hook does not see process statements). Long prefixes: ten programs whose nullable loop (unnamed, named, capturing, lazy, in a regex literal) starts after one attempt has matched 100 .. 131 073 bytes through whole file / whole line (lengths on both sides of 65 536); budget 250 000 steps. Non-trivial = the program contains an optional loop whose body can match the empty string and the run executed a loop instruction; distinct by (program, input).", budget, depth, len(texts), tlen)
 	r.Assumptions = []string{
 		"unbounded 'always terminates' is restated as 'returns within the step budget'; max observed steps are in the evidence so the margin is visible",
 		"recursion only behind a consumed byte; no process-code loops",
@@ -393,6 +393,9 @@ func c10Process(r *drv.Run) {
 	var srcs []string
 	for _, b := range bodies {
 		srcs = append(srcs, "set f to transform "+b+" end\nreplace all at least 1 letter with f ':' f '/' f")
+		// ... and over matches that hold multi-byte characters and stray high bytes (a walk by head and tail goes
+		// through them byte by byte)
+		srcs = append(srcs, "set f to transform "+b+" end\nreplace all at least 1 not in ' ' with f")
 		// the same loop in a predicate, its result turned into a verdict
 		pb := strings.Replace(b, "return s", "return s == 'xxx'", 1)
 		pb = strings.Replace(pb, "return i", "return i > 0", 1)
@@ -404,7 +407,7 @@ func c10Process(r *drv.Run) {
 		pb = strings.Replace(pb, "return k end", "return true end", 1)
 		srcs = append(srcs, "set p to pattern at least 1 letter begin "+pb+" end\nfind all p")
 	}
-	texts := [][]byte{[]byte("a"), []byte("banana split"), []byte("aaa b"), []byte(""), []byte("xyz")}
+	texts := [][]byte{[]byte("a"), []byte("banana split"), []byte("aaa b"), []byte(""), []byte("xyz"), []byte("été naïve"), []byte("a\xffb \x80\x80 \xc3"), []byte("😊a 上"), []byte("aé")}
 	r.Exec(len(srcs), drv.ExecOpts{Batch: 1}, func(i int) *drv.Item {
 		src := srcs[i]
 		c := wire.Case{Op: "run", Src: []byte(src), Texts: texts, StepBudget: 1_000_000}
